@@ -12,6 +12,7 @@ package core
 //@   uses shdq utf8
 //@   monitor shdq sink buf expects s
 //@   opt replay shquote
+//@   effect shq s
 //@   requires validUTF8(s)
 //@   requires forall i :: 0 <= i && i < len(s) ==> s[i] != 0
 //@   ensures @accepts mon(result, q) == shdq_DONE
@@ -21,6 +22,66 @@ package core
 //@   loop 1 invariant mon(buf, q) == shdq_DQ
 //@   loop 1 invariant mon(buf, k) == len(s0) - len(s)
 //@   loop 1 decreases len(s)
+
+// formatArgs: the command, every argument and every environment value goes through
+// appendShellSafeQuote (ghost event shq[s] counts appendShellSafeQuote(_, s) calls).
+//@ func core.formatArgs property C18
+//@   ensures @cmd ghost(shq)[shellCmd] > old(ghost(shq)[shellCmd])
+//@   ensures @args forall j :: 0 <= j && j < len(argv) ==> ghost(shq)[argv[j]] > old(ghost(shq)[argv[j]])
+//@   ensures @envs forall k string :: has(envs, k) ==> ghost(shq)[envs[k]] > old(ghost(shq)[envs[k]])
+//@   ensures @monotone forall x string :: ghost(shq)[x] >= old(ghost(shq)[x])
+//@   ensures ghost(nrepl) == old(ghost(nrepl))
+//@   ensures @frame forall j :: 0 <= j && j < len(argv) ==> argv[j] == old(argv[j])
+//@   loop 1 invariant ghost(shq) == old(ghost(shq))
+//@   loop 2 invariant forall x string :: ghost(shq)[x] >= old(ghost(shq)[x])
+//@   loop 2 invariant forall j :: 0 <= j && j < len(argv) ==> argv[j] == old(argv[j])
+//@   loop 2 invariant base(envStrs) != base(argv) && !old(alloc(base(envStrs)))
+//@   loop 3 invariant forall j :: 0 <= j && j < len(argv) ==> argv[j] == old(argv[j])
+//@   loop 4 invariant forall j :: 0 <= j && j < len(argv) ==> argv[j] == old(argv[j])
+//@   loop 2 invariant forall k string :: visited(k) ==> ghost(shq)[envs[k]] > old(ghost(shq)[envs[k]])
+//@   loop 3 invariant forall x string :: ghost(shq)[x] >= old(ghost(shq)[x])
+//@   loop 3 invariant forall k string :: has(envs, k) ==> ghost(shq)[envs[k]] > old(ghost(shq)[envs[k]])
+//@   loop 4 invariant forall x string :: ghost(shq)[x] >= old(ghost(shq)[x])
+//@   loop 4 invariant forall k string :: has(envs, k) ==> ghost(shq)[envs[k]] > old(ghost(shq)[envs[k]])
+//@   loop 4 invariant ghost(shq)[shellCmd] > old(ghost(shq)[shellCmd])
+//@   loop 4 invariant 0 <= iter && iter <= len(argv) && forall j :: 0 <= j && j < iter ==> ghost(shq)[argv[j]] > old(ghost(shq)[argv[j]])
+
+//@ func core.shellSafeQuote property C18
+//@   ensures ghost(shq)[s] == old(ghost(shq)[s]) + 1
+//@   ensures forall x string :: x != s ==> ghost(shq)[x] == old(ghost(shq)[x])
+
+// threadEnvs keeps every caller-supplied environment variable with its value.
+//@ iface core.JobManager.GetSettings property C18
+//@   pure
+//@ func core.threadEnvs property C18
+//@   ensures @kept forall k string :: has(envs, k) ==> has(result, k) && result[k] == envs[k]
+//@   ensures ghost(shq) == old(ghost(shq)) && ghost(nrepl) == old(ghost(nrepl))
+//@   ensures @frame forall k string :: has(envs, k) == old(has(envs, k)) && envs[k] == old(envs[k])
+//@   loop 1 invariant !old(alloc(newEnvs)) && forall k string :: has(envs, k) == old(has(envs, k)) && envs[k] == old(envs[k])
+//@   loop 2 invariant !old(alloc(newEnvs)) && forall k string :: has(envs, k) == old(has(envs, k)) && envs[k] == old(envs[k])
+//@   loop 2 invariant forall k string :: visited(k) ==> has(newEnvs, k) && newEnvs[k] == envs[k]
+
+//@ func core.Metadata.MetadataFilePath property C18
+//@   pure
+//@   opt deterministic on
+
+// jobScript: the command line, every argument and every environment value are quoted
+// (formatArgs), the stdout/stderr/work-directory paths are quoted, and the template's
+// placeholders are substituted simultaneously: the script is ONE application, to the
+// template, of ONE replacer built in this call (a substituted value is never scanned for
+// placeholders again).
+//@ func core.RemoteJobManager.jobScript property C18
+//@   requires self != nil && self.config != nil && metadata != nil
+//@   ensures @cmd ghost(shq)[shellCmd] > old(ghost(shq)[shellCmd])
+//@   ensures @args forall j :: 0 <= j && j < len(argv) ==> ghost(shq)[argv[j]] > old(ghost(shq)[argv[j]])
+//@   ensures @envs forall k string :: has(envs, k) ==> ghost(shq)[envs[k]] > old(ghost(shq)[envs[k]])
+//@   ensures @stdout ghost(shq)[fn(core.Metadata.MetadataFilePath, metadata, "stdout")] > old(ghost(shq)[fn(core.Metadata.MetadataFilePath, metadata, "stdout")])
+//@   ensures @stderr ghost(shq)[fn(core.Metadata.MetadataFilePath, metadata, "stderr")] > old(ghost(shq)[fn(core.Metadata.MetadataFilePath, metadata, "stderr")])
+//@   ensures @workdir ghost(shq)[old(metadata.curFilesPath)] > old(ghost(shq)[metadata.curFilesPath])
+//@   ensures @onereplacer ghost(nrepl)[0] == old(ghost(nrepl)[0]) + 1
+//@   ensures @singlepass result == fn("strings.Replacer.Replace", ghost(lastrepl)[0], old(self.config.jobTemplate))
+//@   loop 1 invariant !old(alloc(base(args))) && forall j :: 0 <= j && j < len(argv) ==> argv[j] == old(argv[j])
+//@   loop 2 invariant !old(alloc(base(args))) && forall j :: 0 <= j && j < len(argv) ==> argv[j] == old(argv[j])
 
 // ---------------------------------------------------------------- C12 semaphores
 //
@@ -893,11 +954,43 @@ package core
 // directory).  checkedReset resets the job if and only if its recorded state is failed
 // (an _errors or an _assert file): finished or running work is never thrown away, and an
 // assertion failure is as resettable as an error.
-//@ func core.Metadata.uncheckedReset property C05 C06
+// A reset starts a NEW attempt: ghost event nuniq[0] counts makeUniquifier() calls and
+// lastuniq[0] is the last attempt id made.  After a successful reset of a job that ran under
+// an attempt id, the metadata carries an id made during this reset (never the old one kept):
+// journal notifications of the earlier attempt then differ in their uniquifier and
+// Metadata.cache ignores them (contract @stale above).
+//@ func core.makeUniquifier property C11 C05 C06 C02
 //@   trusted
-//@   modifies mapof(self.contents), mapof(self.readCache), held(self.mutex), ghost(resets)
-//@   ensures ghost(resets)[self] == old(ghost(resets)[self]) + 1
-//@   ensures forall m *core.Metadata :: m != self ==> ghost(resets)[m] == old(ghost(resets)[m])
+//@   effect nuniq 0
+//@   effect lastuniq 0 := result
+//@   ensures result != ""
+
+//@ func core.Metadata.uniquify property C11 C05 C06 C02
+//@   requires self != nil && !held(self.mutex)
+//@   ensures @made old(self.uniquifier) == "" ==> ghost(nuniq)[0] == old(ghost(nuniq)[0]) + 1 && self.uniquifier == ghost(lastuniq)[0]
+//@   ensures @kept old(self.uniquifier) != "" ==> ghost(nuniq) == old(ghost(nuniq)) && ghost(lastuniq) == old(ghost(lastuniq)) && self.uniquifier == old(self.uniquifier)
+//@   ensures !held(self.mutex)
+//@   ensures ghost(resets) == old(ghost(resets))
+
+//@ func core.Metadata.removeAll property C05 C06 C11 C02
+//@   requires self != nil && !held(self.mutex)
+//@   ensures !held(self.mutex) && self.uniquifier == old(self.uniquifier) && ghost(nuniq) == old(ghost(nuniq)) && ghost(lastuniq) == old(ghost(lastuniq))
+//@ func core.Metadata.writeError property C05 C06 C11 C02
+//@   trusted
+//@   modifies mapof(self.contents), mapof(self.readCache)
+//@   requires self != nil && !held(self.mutex)
+//@   ensures !held(self.mutex) && self.uniquifier == old(self.uniquifier) && ghost(nuniq) == old(ghost(nuniq)) && ghost(lastuniq) == old(ghost(lastuniq))
+//@ func core.Metadata.mkdirs property C05 C06 C11 C02
+//@   requires self != nil && !held(self.mutex)
+//@   ensures !held(self.mutex) && self.uniquifier == old(self.uniquifier) && ghost(nuniq) == old(ghost(nuniq)) && ghost(lastuniq) == old(ghost(lastuniq))
+
+//@ func core.Metadata.uncheckedReset property C05 C06 C11 C02
+//@   requires self != nil && !held(self.mutex)
+//@   effect resets self
+//@   ensures @newattempt isnil(result) && old(self.uniquifier) != "" ==> ghost(nuniq)[0] > old(ghost(nuniq)[0]) && self.uniquifier == ghost(lastuniq)[0]
+//@   ensures @plain isnil(result) && old(self.uniquifier) == "" ==> self.uniquifier == ""
+//@   ensures !held(self.mutex)
+//@   loop 1 invariant self.uniquifier == old(self.uniquifier) && ghost(nuniq) == old(ghost(nuniq)) && !held(self.mutex)
 
 //@ func core.Metadata.checkedReset property C05 C06
 //@   uses mdstate
